@@ -24,6 +24,13 @@ def jobs(tier):
             j.canary = False
             j.imported = True
             J.append(j)
+    import C03
+    for j in C03.jobs("quick"):
+        if j.name in ("add_scenario.19", "add_scenario.20", "add_scenario.21"):   # double reflect on any port pair is accepted like the mapped matrix
+            j.name = "double_reflect_ports." + j.name
+            j.canary = False
+            j.imported = True
+            J.append(j)
     return J + [V.Job("through_line_mapped", H, "h_through_line_mapped", ["vnacal_layout.c"],
                   strip={"vnacal_new_add_common.c": ["_vnacal_new_add_common"]},
                   unwind=6, union_struct=True, kind="proof", canary=True,
